@@ -312,6 +312,28 @@ experiments:
     ('default-data-file-null', 'default_data_file: ~\nbenchmark_suites:\n  S1: {gauge_adapter: Time, command: c, benchmarks: [b]}\nexecutors:\n  E1: {executable: x}\n'
                                'experiments:\n  X: {suites: [S1], executions: [E1]}\n'),
     ('default-exp-null', 'default_experiment: ~\nexperiments: {}\n'),
+    ('gauge-two-keys', 'benchmark_suites:\n  S1: {gauge_adapter: {A: a.py, B: b.py}, command: c, benchmarks: [b]}\n'),
+    ('gauge-one-key', 'benchmark_suites:\n  S1: {gauge_adapter: {A: a.py}, command: c, benchmarks: [b]}\n'),
+    ('gauge-int', 'benchmark_suites:\n  S1: {gauge_adapter: 5, command: c, benchmarks: [b]}\n'),
+    ('gauge-list', 'benchmark_suites:\n  S1: {gauge_adapter: [Time], command: c, benchmarks: [b]}\n'),
+    ('gauge-null', 'benchmark_suites:\n  S1: {gauge_adapter: ~, command: c, benchmarks: [b]}\n'),
+    ('gauge-empty-map', 'benchmark_suites:\n  S1: {gauge_adapter: {}, command: c, benchmarks: [b]}\n'),
+    ('no-executable', 'executors:\n  E1: {path: p}\n'),
+    ('suite-unknown-key', 'benchmark_suites:\n  S1: {gauge_adapter: Time, command: c, benchmarks: [b], foo: 1}\n'),
+    ('invocations-list', 'runs:\n  invocations: [1]\n'),
+    ('invocations-bool', 'runs:\n  invocations: true\n'),
+    ('invocations-str-number', 'runs:\n  invocations: "12"\n'),
+    ('invocations-bang-only', 'runs:\n  invocations: "!"\nbenchmark_suites:\n  S1: {gauge_adapter: Time, command: c, benchmarks: [b]}\nexecutors:\n  E1: {executable: x}\n'
+                             'experiments:\n  X: {suites: [S1], executions: [E1]}\n'),
+    ('action-prefix', 'experiments:\n  X: {suites: [], executions: [], action: benchmarking}\n'),
+    ('action-other', 'experiments:\n  X: {suites: [], executions: [], action: run}\n'),
+    ('empty-lists', 'experiments:\n  X: {suites: [], executions: []}\n'),
+    ('machine-null', 'machines:\n  m1: ~\n'),
+    ('env-null', 'runs:\n  env: ~\n'),
+    ('env-int-value', 'runs:\n  env: {A: 1}\n'),
+    ('pif-string', 'runs:\n  parallel_interference_factor: "1e-3"\n'),
+    ('pif-bad-string', 'runs:\n  parallel_interference_factor: "fast"\n'),
+    ('empty-key', 'benchmark_suites:\n  "": {gauge_adapter: Time, command: c, benchmarks: [b]}\n'),
 ]
 
 CLI_VARIANTS = [[], [], [], ['X1'], ['X9'], ['all'], ['-m', 'm1'], ['-m', 'm9'], ['-q'], ['-in', '2'], ['-it', '3'],
@@ -372,9 +394,10 @@ def run_impl(ck, text, cli, idx):
     return st, where, late, r
 
 
-def check_docs(ck, cases, variant_repaired=True):
+def check_docs(ck, cases, variant_repaired=True, search=True):
     """cases: list of (kind, text, cli args, is_valid_generated)"""
     obs, ops = [], []
+    to_search = []
     for i, (kind, text, cli, valid) in enumerate(cases):
         try:
             doc = yaml.safe_load(text)
@@ -424,6 +447,32 @@ def check_docs(ck, cases, variant_repaired=True):
             ck.disagree('c19.compile: outcome class vs RB.ConfigDoc.compile', inp,
                         {'outcome': st, 'raised_in': where, 'message': r.crash[1] if r.crash else None},
                         {'outcome': ans['outcome'], 'schema_ok': ans['schema_ok'], 'raised': ans['raised']}, THEOREMS)
+            if not st.startswith('crash:'):
+                to_search.append((text, cli))
+    if search and to_search and ck.dist.get('neighbourhood-searches', 0) < 3:
+        neighbourhood(ck, to_search[:3], variant_repaired)
+
+
+def neighbourhood(ck, items, variant_repaired):
+    """a disagreement without oracle failure: evaluate the oracle on mutations of the input"""
+    import random
+    rng = random.Random(4711)
+    cases = []
+    for (text, cli) in items:
+        ck.count('neighbourhood-searches')
+        try:
+            doc = yaml.safe_load(text)
+        except Exception:
+            continue
+        if not isinstance(doc, (dict, list)):
+            continue
+        for _ in range(25):
+            try:
+                k, m = mutate(rng, doc)
+                cases.append(('search:' + k.split(':')[0], dump(m), cli, False))
+            except Exception:
+                continue
+    check_docs(ck, cases, variant_repaired, search=False)
 
 
 def dump(cfg):
@@ -458,7 +507,7 @@ def run(ck):
     cases = load_corpus()
     ck.count('corpus', len(cases))
     cases += [(k, t, [], False) for (k, t) in ANCHOR_TEXTS]
-    n = 280 if quick else 8000
+    n = 280 if quick else 5000
     for _ in range(n):
         cfg = gen_valid(ck.rng)
         cli = ck.rng.choice(CLI_VARIANTS)
